@@ -223,6 +223,26 @@ func genC11(g *Gen) error {
 			return err
 		}
 	}
+	// the store's own time-range test on a shard (engine/shard.go: shard.Intersect), used when the
+	// store selects shards by time range itself (DBPTInfo.ShardIds / walkShards)
+	st := &Tr{g: g}
+	st.Ident = func(name string) string {
+		switch name {
+		case "s.startTime":
+			return "startTime"
+		case "s.endTime":
+			return "endTime"
+		case "tr.Max":
+			return "tmax"
+		case "tr.Min":
+			return "tmin"
+		}
+		return ""
+	}
+	st.Call = pure.Call
+	if err := c11Def(g, st, "engine/shard.go", "shard.Intersect", "def storeIntersect (startTime endTime tmin tmax : Int) : Bool", false); err != nil {
+		return err
+	}
 	g.P("end OG.C11\n")
 
 	g.GenNS()
@@ -247,6 +267,8 @@ func genC11(g *Gen) error {
 		{"lib/util/lifted/vm/protoparser/influx/parser.go", "Row.appendShardKey", "src_appendShardKey"},
 		{"lib/util/lifted/vm/protoparser/influx/parser.go", "Row.CheckDuplicateTag", "src_CheckDuplicateTag"},
 		{"lib/util/lifted/vm/protoparser/influx/parser.go", "PointTags.Less", "src_PointTagsLess"},
+		{"lib/util/lifted/vm/protoparser/influx/parser.go", "Row.UnmarshalShardKeyByField", "src_UnmarshalShardKeyByField"},
+		{"lib/util/lifted/vm/protoparser/influx/parser.go", "Row.appendShardKeyWithField", "src_appendShardKeyWithField"},
 		{"coordinator/write_helper.go", "createShardGroup", "src_createShardGroup"},
 	} {
 		fd, err := g.Func(f.rel, f.name)
